@@ -5,8 +5,9 @@
 //! Subject: a real access controller holding badge X, created with roles
 //! primary = sig(K0), recovery = sig(K1), confirmation = sig(K2) and timed recovery delay in {None, 2 min}.
 //! Actors: the four keys K0..K3 and "nobody" (only the fee payer signs). Proposals: P1 = rules (K3,K1,K2)
-//! delay Some(5); P2 = rules (K1,K0,K3) delay None; P1d = P1's rules with delay None (only ever *passed* to
-//! confirm / stop calls, never initiated, so that "the same proposal" is tested on the delay alone).
+//! delay Some(5); P2 = rules (K1,K0,K3) delay None; P1d = P1's rules with delay None and P1c = P1 with another
+//! confirmation rule (both only ever *passed* to confirm / stop calls, never initiated, so that "the same
+//! proposal" is tested on the delay alone and on a single rule alone).
 //! Actions: every method of the blueprint x every actor (so every role the template allows *and* every
 //! role / outsider it does not), proposal-taking methods x proposals, a direct `set_role` on the controller's
 //! role assignment, and time steps of +1 / +2 minutes (consensus round updates).
@@ -70,9 +71,11 @@ pub enum Prop {
     P2,
     /// P1's rule set with another proposed delay; never initiated
     P1d,
+    /// P1 with another confirmation rule only; never initiated
+    P1c,
 }
 const INIT_PROPS: [Prop; 2] = [Prop::P1, Prop::P2];
-const CONFIRM_PROPS: [Prop; 3] = [Prop::P1, Prop::P2, Prop::P1d];
+const CONFIRM_PROPS: [Prop; 4] = [Prop::P1, Prop::P2, Prop::P1d, Prop::P1c];
 
 /// who holds a role: a key's signature badge, or nobody (DenyAll)
 #[derive(Clone, Copy, Debug, PartialEq, Eq, PartialOrd, Ord, Hash)]
@@ -90,11 +93,12 @@ impl Prop {
         match self {
             Prop::P1 | Prop::P1d => [H::Key(3), H::Key(1), H::Key(2)],
             Prop::P2 => [H::Key(1), H::Key(0), H::Key(3)],
+            Prop::P1c => [H::Key(3), H::Key(1), H::Key(0)],
         }
     }
     fn delay(&self) -> Option<u32> {
         match self {
-            Prop::P1 => Some(5),
+            Prop::P1 | Prop::P1c => Some(5),
             Prop::P2 | Prop::P1d => None,
         }
     }
@@ -850,7 +854,7 @@ pub fn run(ctx: Ctx) -> ! {
     let quick = ctx.quick();
     // (tag, delay, protocol, max depth, wall cap)
     let plan: Vec<(&str, Option<u32>, Proto, usize, f64)> = if quick {
-        vec![("v2-delay2", Some(2), Proto::Latest, 4, 40.0), ("v2-nodelay", None, Proto::Latest, 2, 10.0)]
+        vec![("v2-delay2", Some(2), Proto::Latest, 5, 45.0), ("v2-nodelay", None, Proto::Latest, 3, 10.0)]
     } else {
         vec![("v2-delay2", Some(2), Proto::Latest, 64, 700.0), ("v2-nodelay", None, Proto::Latest, 64, 250.0), ("v1-delay2", Some(2), Proto::Anemone, 64, 250.0)]
     };
@@ -872,12 +876,12 @@ pub fn run(ctx: Ctx) -> ! {
     let exhaustive = !total.capped;
     ctx.finish(
         Level::ModelChecking,
-        "breadth-first over all histories of access-controller calls (every method x every actor incl. roles the template does not allow and outsiders, proposal arguments from a 3-element alphabet, +1/+2 minute round updates) on the real engine; states merged by decoded controller substate + role rules + custody + clamped timer relation + harness ghost state; thorough tier runs until no new state appears; transition invariants I1-I3 checked on every transition; non-trivial = distinct states",
+        "breadth-first over all histories of access-controller calls (every method x every actor incl. roles the template does not allow and outsiders, proposal arguments from a 4-element alphabet, +1/+2 minute round updates) on the real engine; states merged by decoded controller substate + role rules + custody + clamped timer relation + harness ghost state; thorough tier runs until no new state appears; transition invariants I1-I3 checked on every transition; non-trivial = distinct states",
         total.states,
         exhaustive,
         cov,
         &[
-            "roles are single signature badges of four keys; proposals from {P1, P2} (+P1d as confirm argument)",
+            "roles are single signature badges of four keys; proposals from {P1, P2} (+P1d, P1c as confirm arguments only)",
             "clock moves in whole minutes from a minute-aligned start (the blueprint compares at minute precision)",
             "recovery-badge supply and fee-vault balance are not part of the state fingerprint: the controller never reads them (only mint's duplicate-id check / the fee methods' own amount checks do)",
             "quick tier is depth-bounded (not a fixpoint)",
